@@ -13,6 +13,13 @@ A commandable property has a priority array of 16 slots, each NULL or a value.
     implementation may take it as the command "value / NULL at priority k"; both are allowed here,
     nothing else is (CmdRef.optional_array_element)
 
+Replacement of the priority array as a whole (an application clears all commands in one go, or puts saved
+commanded state back): from then on the slots are those of the new array and every later command lands in
+it.  The replacement itself is not a write or relinquish, so nothing is demanded of the present value right
+after it (`snapshot()` gives UNSPECIFIED for it: it may still be the old value or already follow the new
+array); from the next accepted command on the rule "lowest-numbered non-NULL slot, else the default" holds
+again in full.  Not modelled together with minimum on/off times.
+
 Change-of-value subscriptions (clause 13.1) observe an object; they command nothing.  No subscription
 event (subscribe, renew, cancel, lifetime running out) appears in this model: the command state of an
 object with subscribers is the command state of the same object without.  `SubscriptionBook` only
@@ -32,6 +39,7 @@ BACnetPriorityValue).
 """
 
 NULL = ("NULL",)            # the one null marker (distinct from every value, including falsy ones)
+UNSPECIFIED = ("UNSPECIFIED",)      # present value the statement says nothing about (right after a whole-array replacement)
 
 ACTIVE = 1                  # BACnetBinaryPV
 INACTIVE = 0
@@ -50,6 +58,7 @@ class CmdRef(object):
         self.min_off = min_off or 0
         self.now = 0
         self.hold_until = None              # absolute time slot 6 is released by the min on/off mechanism
+        self.pv_free = False                # the array was replaced as a whole and no command has followed yet
 
     # -- pure functions of the state
     def winner(self):
@@ -60,7 +69,7 @@ class CmdRef(object):
 
     def snapshot(self):
         """(slots 1..16, present value, relinquish default)"""
-        return (tuple(self.slots[1:]), self.pv, self.rd)
+        return (tuple(self.slots[1:]), UNSPECIFIED if self.pv_free else self.pv, self.rd)
 
     def pending(self):
         """seconds until the pending slot-6 release, or None"""
@@ -106,8 +115,31 @@ class CmdRef(object):
             self.slots[array_index] = value
             self._recompute()
 
+    def array_content(self, content, slot=None, value=None):
+        """16 slots of a whole new array: "copy" (what the array holds now), "clear" (all NULL),
+        "one" (all NULL but `slot` = `value`)"""
+        if content == "copy":
+            return tuple(self.slots[1:])
+        new = [NULL] * 16
+        if content == "one":
+            new[slot - 1] = value
+        elif content != "clear":
+            raise ValueError(content)
+        return tuple(new)
+
+    def replace_array(self, slots16):
+        """The priority array is replaced as a whole (not modelled together with minimum on/off times)."""
+        if len(slots16) != 16:
+            raise ValueError("a priority array has 16 slots")
+        self.slots = [NULL] + list(slots16)
+        self.pv_free = True
+
     def _recompute(self):
         new = self.winner()
+        if self.pv_free:                    # first command after a replacement: the rule holds again
+            self.pv_free = False
+            self.pv = new
+            return
         if new == self.pv:
             return
         self.pv = new
